@@ -700,6 +700,8 @@ func (runInfo *runInfoStruct) runReturnStmt(stmt *ast.ReturnStmt) {
 	case 1:
 		runInfo.expr = stmt.Exprs[0]
 		runInfo.invokeExpr()
+		// the result is the value at the return statement: deferred calls run after it and must not alter it
+		runInfo.rv = detachValue(runInfo.rv)
 		return
 	}
 	rvs := make([]interface{}, len(stmt.Exprs))
